@@ -142,7 +142,28 @@ def explore(ctx):
     for i in range(0, len(HEX_POOL), 6):
         hl = [json.dumps({'id': i + k, 'h': h}) + '\n' for k, h in enumerate(HEX_POOL[i:i + 6])]
         cases.append(Case('hex%d' % i, STAR, [('json', None), ('let', ('call', 'parseHex', [('col', 'h', [])]), 'r')], hl, {'expr', 'hex'}))
+    # a row on which an expression fails is dropped ALONE -- also when the rows are those of an aggregate table
+    post = []
+    for i in range(12 if quick else 200):
+        ks = ['a', 'b', 'c', 'd', 'e', 'f']
+        rows_ = []
+        for j in range(rng.randint(4, 16)):
+            r_ = {'id': j, 'k': rng.choice(ks)}
+            if r_['k'] not in ('b', 'd') or rng.random() < 0.15:
+                r_['a'] = rng.randint(1, 50)
+            rows_.append(r_)
+        tail = rng.choice([[('let', ('ar', 'mul', col('m'), lit(2)), 'd')], [('where', ('cmp', 'gt', ('ar', 'add', col('m'), lit(0)), lit(0)))],
+                           [('let', ('ar', 'div', col('m'), lit(1000)), 'ms'), ('fields', 'only', ['k', 'ms'])]])
+        c_ = Case('post%d' % i, STAR, [('json', None), ('agg', [('m', ('max', col('a'))), (None, ('count', None))], [(None, col('k'))])] + tail,
+                  [gen.jtext(r_) for r_ in rows_], {'expr', 'post'}, note={'ok_keys': sorted({r_['k'] for r_ in rows_ if 'a' in r_})})
+        cases.append(c_)
     results = run_cases(cases)
+    for r in results:
+        if 'post' in r['case'].tags and r['impl']['kind'] in ('rows', 'table'):
+            got = sorted(x.get('k') for x in r['impl']['rows'])
+            if got != r['case'].note['ok_keys']:
+                failures.append({'kind': 'spec', 'what': 'after an aggregation, the groups on which the expression succeeds are %r but the rows printed are those of %r' % (r['case'].note['ok_keys'], got),
+                                 'payload': payload(r)})
     full_out = aglib.run_impl_many([(q2, cases[idx].inp, 'json', ()) for idx, q2 in pairs])
     prec_checked = 0
     for (idx, q2), fo in zip(pairs, full_out):
